@@ -204,6 +204,8 @@ INSERTM_ENS = [
      '%s == %s.insert(%s, %s) && final(self).order@ == touch(old(self).order@, %s)' % (OVERSIZE, MEMFITS, MA, M1, M0, K, NEW, K)),
     ('survivors_unchanged', ['C01', 'C05'], 'forall|x: String| x != %s && #[trigger] %s.contains_key(x) ==> %s.contains_key(x) && %s[x] == %s[x]' % (K, M1, M0, M1, M0)),
     ('fifo_lru_oldest_first', ['C07'], '(!%s && (old(self).policy is FIFO || old(self).policy is LRU)) ==> is_suffix(final(self).order@.drop_last(), %s) && final(self).order@.last() == %s' % (OVERSIZE, QA, K)),
+    ('lfu_evicts_least_frequent', ['C08'], '(!%s && old(self).policy is LFU) ==> forall|x: String, y: String| #![trigger %s.contains_key(x), %s.contains_key(y)] '
+     '%s.contains_key(x) && !%s.contains_key(x) && %s.contains_key(y) && y != %s ==> %s[x].2 <= %s[y].2' % (OVERSIZE, MA, M1, MA, M1, M1, K, MA, MA)),
     ('bound', ['C04'], '(old(self).limit is Some && %s.len() <= old(self).limit->Some_0) ==> %s.len() <= old(self).limit->Some_0' % (M0, M1)),
 ]
 MEMLOOP = dict(
@@ -220,6 +222,9 @@ MEMLOOP = dict(
         ('no_needless', '%s + value.mem() <= max_mem ==> self.cache@ == %s && order@ == %s' % (SA_TOTAL, MA, QA)),
         ('oldest_first', '(self.policy is FIFO || self.policy is LRU) ==> is_suffix(order@, %s)' % QA),
         ('shrinks', 'order@.len() <= %s.len()' % QA),
+        # C08 under memory pressure: whatever has been evicted so far had no more hits than anything still resident
+        ('lfu_order', 'self.policy is LFU ==> forall|x: String, y: String| #![trigger %s.contains_key(x), self.cache@.contains_key(y)] '
+                      '%s.contains_key(x) && !self.cache@.contains_key(x) && self.cache@.contains_key(y) ==> %s[x].2 <= %s[y].2' % (MA, MA, MA, MA)),
     ],
     ensures=[('fits', 'a_mem_total(self.cache@, order@) + value.mem() <= max_mem')],
     decreases='order@.len()')
